@@ -48,6 +48,7 @@ def run(ctx):
     # the files the CLI writes FSTs into start empty (no stale tail behind the new image)
     from rules import cli
     ctx.step(cli.fresh_sinks, ctx, ctx.rule('R09.9', 'CLI outputs are created empty (File::create / truncate / create_new)', floor=3))
+    ctx.step(cli.builders_finished, ctx, 'R09.9')
     # the artefact is complete: every success of the finishing routine has written pending nodes, footer, checksum and flushed (R11.3)
     import rules.C11 as C11
     if not A.err:
